@@ -80,6 +80,12 @@ func c18Units(tier string) []*Unit {
 		{Name: "root", Deps: []Ref{{Task: "nope-1"}, {Task: "nope-2"}, {Task: "bulid"}}},
 		{Name: "build", Cmds: []C{P()}},
 	}}, vlab.Options{})
+	// shell options declared once at Taskfile / task level, used by commands that start together
+	add("shared-set-and-shopt-lists-parallel", &Prog{RawTop: []string{"set: [pipefail, errexit, nounset, errexit]", "shopt: [globstar, expand_aliases]"}, Tasks: []*T{
+		{Name: "root", Deps: []Ref{D("a"), D("b")}},
+		{Name: "a", RawLines: []string{"set: [xtrace, errexit]"}, Cmds: []C{P(), P()}},
+		{Name: "b", Cmds: []C{P(), P()}},
+	}}, vlab.Options{})
 	// parallel for-loop over deps with a matrix whose rows are references
 	add("matrix-ref-parallel-deps", &Prog{Tasks: []*T{
 		{Name: "root", Deps: []Ref{
@@ -128,7 +134,8 @@ func c18Units(tier string) []*Unit {
 		bound := 1
 		maxW := 6
 		dedicated := map[string]bool{"defer-same-task-parallel": true, "matrix-ref-parallel-deps": true, "dynvars-parallel": true,
-			"once-failing-two-callers": true, "c17-executor-group": true, "c17-executor-prefixed": true, "reader-sibling-includes": true, "reader-diamond-dirs-dynvar": true}
+			"once-failing-two-callers": true, "c17-executor-group": true, "c17-executor-prefixed": true, "reader-sibling-includes": true, "reader-diamond-dirs-dynvar": true,
+			"shared-set-and-shopt-lists-parallel": true, "missing-tasks-resolved-in-parallel": true, "wildcard-and-alias-resolution-parallel": true}
 		heavy := map[string]bool{"c01-twolevel-cancel": true, "c01-nested-call-in-dep-N1": true, "c07-fail-nested-N2": true}
 		switch {
 		case dedicated[e.name]:
